@@ -62,6 +62,14 @@ Theorem C02_message_keeps_units : forall s m s',
 Proof. exact handle_UInv. Qed.
 Print Assumptions C02_message_keeps_units.
 
+(* with a premise on the first state only (pool store in key order, non-negative balances): the one condition left along
+   the run is that no liquidity is added to a pool with an empty side (finding F-14) *)
+From Sif Require Proofs.ClpGood.
+Theorem C02_history_full : forall txs s,
+  Sif.Proofs.ClpGood.GInv s -> Sif.Proofs.ClpGood.no_one_sided_run s txs -> UInv s -> UInv (run_txs s txs).
+Proof. exact Sif.Proofs.ClpGood.run_txs_UInv_full. Qed.
+Print Assumptions C02_history_full.
+
 Example C02_history_example :
   let s := mkClp (mkBank [(10, [(0, 9000000000000000000000); (1, 9000000000000000000000)]);
                           (11, [(0, 9000000000000000000000); (1, 9000000000000000000000)])] [])
